@@ -208,9 +208,27 @@ class ModuleAstInfo:
             )
             yield (full_scope_name, lineno)
 
-        for child in ast.iter_child_nodes(scope_node):
+        for child in cls._child_scopes(scope_node):
+            yield from cls._get_scope_names(child, full_scope_name)
+
+    @classmethod
+    def _child_scopes(cls, node: ast.AST) -> Iterable[ScopeNode]:
+        """Get the scopes directly nested in a node.
+
+        A scope may be defined inside a compound statement of its parent scope
+        (e.g., ``if sys.version_info >= (3, 12): def f(): ...``).
+
+        Args:
+            node: The AST node.
+
+        Returns:
+            The scope nodes whose closest enclosing scope is the given node.
+        """
+        for child in ast.iter_child_nodes(node):
             if isinstance(child, ScopeNode):
-                yield from cls._get_scope_names(child, full_scope_name)
+                yield child
+            else:
+                yield from cls._child_scopes(child)
 
     @classmethod
     def _find_lines_in_ast(
